@@ -184,6 +184,11 @@ func HandleBulkBody(postBody []byte, ctx *fasthttp.RequestCtx, rid uint64, myid 
 
 			numBytes := len(line)
 			bytesReceived += numBytes
+			if !vtable.IsValidIndexName(indexName) {
+				log.Errorf("HandleBulkBody: invalid index name: %v", indexName)
+				success = false
+				break
+			}
 			// update only if body is less than MAX_RECORD_SIZE
 			if numBytes < sutils.MAX_RECORD_SIZE {
 				processedCount++
@@ -375,6 +380,9 @@ func ProcessIndexRequestPle(tsNow uint64, indexNameIn string, flush bool,
 		}
 	}
 
+	if !vtable.IsValidIndexName(indexNameIn) {
+		return utils.TeeErrorf("ProcessIndexRequestPle: invalid index name %v", indexNameIn)
+	}
 	indexNameConverted := AddAndGetRealIndexName(indexNameIn, localIndexMap, myid)
 	tsKey := config.GetTimeStampKey()
 
